@@ -4,7 +4,7 @@ from evalutil import *
 
 ID = "C14"
 LEVEL = "proof"
-MODULES = ["H3Proofs.Props.C14"]
+MODULES = ["H3Proofs.Props.C14", "H3Proofs.Props.C14Round"]
 THEOREMS = "auto"
 ASSUMPTIONS = ["model of gridPathCells with cubeRound in IEEE doubles (Lean Float = C double; bit-identical "
                "rounding including ties), tied by exact correspondence of the cell sequences"]
